@@ -407,6 +407,12 @@ fn algebra(ch: &mut Chooser, ctx: &mut Ctx) {
             check(ch, ctx, "ProofOptions", &o)
         },
         _ => {
+            if ch.chance("t.oversized?", 1, 12) {
+                if let Some(t) = gen_oversized_trace_info(ch, ctx) {
+                    check(ch, ctx, "TraceInfo(metadata beyond 65535 bytes)", &t);
+                }
+                return;
+            }
             let t = gen_trace_info(ch);
             check(ch, ctx, "TraceInfo", &t);
             // and a context around it, when the constructor accepts the combination
@@ -442,6 +448,30 @@ fn gen_trace_info(ch: &mut Chooser) -> TraceInfo {
     let meta_len = [0usize, 1, 65535, 65534, 300][ch.index("t.meta", 5)];
     let meta = rand_bytes(ch, meta_len);
     TraceInfo::new_multi_segment(main, aux, rands, 1usize << log_len, meta)
+}
+
+/// Metadata one byte and more beyond what the 16-bit length prefix can carry: the constructors
+/// refuse it (a documented panic). Should one of them accept it, the value is a value of the type
+/// and has to survive the round trip like any other.
+fn gen_oversized_trace_info(ch: &mut Chooser, ctx: &mut Ctx) -> Option<TraceInfo> {
+    let meta_len = [65536usize, 65537, 70000, 131075][ch.index("t.bigmeta", 4)];
+    let meta = rand_bytes(ch, meta_len);
+    let which = ch.index("t.ctor", 3);
+    let r = guard(move || match which {
+        0 => TraceInfo::new_multi_segment(3, 2, 1, 16, meta),
+        1 => TraceInfo::new_multi_segment(8, 0, 0, 8, meta),
+        _ => TraceInfo::with_meta(4, 32, meta),
+    });
+    match r {
+        Ok(t) => {
+            ctx.probe("constructor_accepted_metadata_beyond_65535_bytes");
+            Some(t)
+        },
+        Err(_) => {
+            ctx.probe("constructor_refused_metadata_beyond_65535_bytes");
+            None
+        },
+    }
 }
 
 struct ProofJob<'a> {
